@@ -33,7 +33,8 @@ def random_object(rnd, depth, nulls=True):
         if depth > 0 and r < 0.55:
             v = random_object(rnd, depth - 1, nulls)
         elif r < 0.65:
-            v = ["A", [rnd.choice([["n"], ["N", 1.0], ["O", [[b"k", ["n"]]]]]) for _ in range(rnd.randint(0, 3))]]
+            v = ["A", [rnd.choice([["n"], ["N", 1.0], ["O", [[b"k", ["n"]]]], ["O", [[b"name", ["S", b"x"]], [b"id", ["N", 1.0]]]],
+                                   ["A", [["O", [[b"key", ["t"]]]]]]]) for _ in range(rnd.randint(0, 3))]]
         else:
             v = rnd.choice(([["n"]] if nulls else []) + [["t"], ["f"], ["N", float(rnd.randint(-9, 9))], ["N", rnd.randint(-40, 40) / 8.0], ["S", b"s"], ["S", b""]])
         members.append([k, v])
@@ -94,7 +95,7 @@ class C18(Prop):
             "is patched; distinct by pair hash")
     ASSUMPTIONS = ["keys distinct per object (case-sensitively); a NULL generated patch means 'no change'"]
     REQUIRED_CLASSES = ["apply", "generate", "nested_object_patch", "case_variant_keys_nested", "null_member_in_patch", "non_object_patch", "non_object_target",
-                        "generated_null_patch"]
+                        "generated_null_patch", "deep_objects"]
 
     def budget(self, tier):
         return {"workers": 14, "examples": 1000 if tier == "quick" else 20000}
@@ -103,14 +104,18 @@ class C18(Prop):
         docs = st.one_of(object_documents(), object_documents(), merge_documents())
         apply_c = st.fixed_dictionaries({"kind": st.just("apply"), "target": docs, "patch": docs, "derived": st.booleans(),
                                          "rseed": st.integers(0, 2 ** 31)})
+        deep_c = st.fixed_dictionaries({"kind": st.just("deep"), "depth": st.sampled_from([998, 999, 1000, 1001, 1002, 1500]),
+                                        "what": st.sampled_from(["remove", "add", "change"]), "rseed": st.integers(0, 2 ** 31)})
         gen_c = st.fixed_dictionaries({"kind": st.just("generate"), "from": st.one_of(object_documents(), object_documents(), merge_documents(max_leaves=10, min_leaves=2)),
                                        "other": docs,
                                        "edits": st.lists(st.sampled_from(EDITS), max_size=4), "independent": gens.chance(5),
                                        "rseed": st.integers(0, 2 ** 31)})
-        return st.one_of(apply_c, gen_c)
+        return st.tuples(gens.chance(40), st.one_of(apply_c, gen_c), deep_c).map(lambda t: t[2] if t[0] else t[1])
 
     def run_case(self, lib, case, stats):
-        if case["kind"] == "apply":
+        if case["kind"] == "deep":
+            self.run_deep(lib, case, stats)
+        elif case["kind"] == "apply":
             self.run_apply(lib, case, stats)
         else:
             self.run_generate(lib, case, stats)
@@ -119,6 +124,45 @@ class C18(Prop):
         s = lib.stats()
         if s.foreign_free or s.cross_free:
             raise Violation("foreign or double free", key="free")
+
+    def run_deep(self, lib, case, stats):
+        """object chains nested about as deep as the parser's limit (built through the API); the difference sits at the bottom"""
+        d, what = case["depth"], case["what"]
+
+        def chain(leaf_members):
+            node = ["O", leaf_members]
+            for _ in range(d):
+                node = ["O", [[b"n", node]]]
+            return node
+        base = [[b"keep", ["N", 1.0]], [b"drop", ["t"]]]
+        if what == "remove":
+            frm, to = chain(base), chain(base[:1])
+        elif what == "add":
+            frm, to = chain(base[:1]), chain(base)
+        else:
+            frm, to = chain(base), chain([[b"keep", ["N", 2.0]], [b"drop", ["t"]]])
+        pf = printing.build_tree(lib, frm)
+        pt = printing.build_tree(lib, to)
+        patch = res = None
+        try:
+            patch = lib.cJSONUtils_GenerateMergePatchCaseSensitive(pf, pt)
+            stats.inner += 1
+            stats.cls("deep_objects")
+            if not patch:
+                raise Violation("NULL merge patch for documents that differ at nesting depth %d" % d, key="null-but-different")
+            pj = dump_to_jv(lib, patch)
+            if not model.eq_set(rfc.merge_apply(frm, pj), to, True):
+                raise Violation("generated merge patch does not turn 'from' into 'to' when the difference (%s a member) is %d objects deep" % (what, d),
+                                key="gen-ref-result")
+            dup = lib.cJSON_Duplicate(pf, 1)
+            res = lib.cJSONUtils_MergePatchCaseSensitive(dup, patch)
+            if not res or not model.eq_set(dump_to_jv(lib, res), to, True):
+                raise Violation("library merge of its own patch is wrong at depth %d" % d, key="gen-lib-result")
+            stats.nontriv(["deep", d, what], {"depth": d, "difference": what})
+        finally:
+            for p in (pf, pt, patch, res):
+                if p:
+                    lib.cJSON_Delete(p)
 
     def run_apply(self, lib, case, stats):
         rnd = random.Random(case["rseed"])
